@@ -34,8 +34,10 @@ pub fn counting(ctx: &mut Ctx) {
         let nb = if mismatch && nb == n { n + 1 } else { nb };
         // values from a small pool so that equal positions are frequent; pool entries are exactly representable floats
         let pool = 1 + ctx.rng.below(4);
-        let a: Vec<u64> = (0..n).map(|_| 1 + ctx.rng.below(pool)).collect();
-        let mut b: Vec<u64> = (0..nb).map(|_| 1 + ctx.rng.below(pool)).collect();
+        // (one case in three draws from a pool that contains 0: a value some code might take for "unset")
+        let lo = if c % 3 == 2 { 0 } else { 1 };
+        let a: Vec<u64> = (0..n).map(|_| lo + ctx.rng.below(pool)).collect();
+        let mut b: Vec<u64> = (0..nb).map(|_| lo + ctx.rng.below(pool)).collect();
         if c % 7 == 0 && !mismatch {
             b = a.clone();
         }
